@@ -225,6 +225,13 @@ func (s *Server) handleValidate(next http.Handler) http.Handler {
 			"source=", getSourceName(r),
 			"key=", getKey(r),
 		)
+		if name := getSourceName(r); name == "." || name == ".." {
+			// Would become the parent of (or the same as) the directories
+			// that hold all the sources
+			log.Debug("STS request rejected: invalid source name")
+			w.WriteHeader(http.StatusBadRequest)
+			return
+		}
 		gateKeeper := s.getGateKeeper(r)
 		if gateKeeper == nil {
 			log.Debug("STS request rejected: missing gatekeeper")
